@@ -43,8 +43,11 @@ RULE = ('a case = (recording length ns, window nwindow, imAiRangeMax/imMaxInt pa
         '_ind2save twice on the same arrays, process() with one window, other library calls, init_params(other window) + '
         'process(overwrite=True), NP2Reconstructor.process() twice): every result is compared with the model of the original values; '
         'helpers and _ind2save in the sweeps are called twice on the same argument objects. Whether inputs were modified is recorded '
-        'as a tag only. non-trivial = the conversion succeeds (>= 2 windows for the sweep); distinct by the whole case description')
+        'as a tag only. For two cases in three the FORM of the call is drawn independently of the values (FORM_TEXT: str/Path, '
+        'positional/keyword, nwindow as int / float / numpy scalar, .bin or multi-chunk .cbin original); a quarter of the recordings hold '
+        'only -32768 / 32767 on every AP column and on the sync column. non-trivial = the conversion succeeds (>= 2 windows for the sweep); distinct by the whole case description')
 ASSUMPTIONS = [
+    'input forms: every form in FORM_TEXT is accepted by the unchanged code and gives the same files; nwindow floats are integer-valued (the API converts with int()); positional NP2Converter calls pass delete_original=False, compress=False (equal values, so a swap of just these two parameters is not observable)',
     'C03 does not state that inputs are left untouched or that results do not alias internal buffers: argument bit-identity is recorded as a tag (inputs:untouched / inputs:modified), only wrong RESULTS of a call sequence on the same objects are reported; replays are judged in a fresh interpreter',
     'recordings have 384 AP channels + 1 sync channel (the NP2.4 metadata the converter accepts); the reconstructor code itself assumes exactly one sync column (chns[:-1])',
     'shank numbers are single decimal digits (the code stores int(sh[-1]) of the key "shank<sh>"); NP2.4 has shanks 0..3',
@@ -121,6 +124,8 @@ def make_data(spec, ns):
     elif kind == 'extremes':
         d = rng.choice(np.array([-32768, -32767, -16385, -1, 0, 1, 2, 3, 16383, 32766, 32767]), size=(ns, NC))
         d[:, -1] = rng.integers(-32768, 32768, ns)
+    elif kind == 'minmax':       # only the two extreme int16 values, on every AP column AND on the sync column, at every sample
+        d = rng.choice(np.array([-32768, 32767]), size=(ns, NC))
     elif kind == 'ramp':         # AP columns run through all 65 536 values (171 rows), then keep counting
         d = np.zeros((ns, NC), int)
         idx = np.arange(ns)[:, None] * NAP + np.arange(NAP)[None, :]
@@ -237,6 +242,18 @@ def _interleave(bin_file):
         pass
 
 
+FORM_TEXT = ('form: path = ap_file / raw_ephys_path given as str or pathlib.Path; spelling = options by keyword or positionally in the '
+             'signature order NP2Converter(ap_file, post_check, delete_original, compress), init_params(nsamples, nwindow, extra, nshank), '
+             'process(overwrite), NP2Reconstructor(raw_ephys_path, pname, compress); nwindow = the same window size as Python int, '
+             'integer-valued float (like 0.04 * 30000), numpy int16/int32/int64 or float64; container = the original given as .bin or as '
+             'mtscomp .cbin + .ch (300-sample chunks)')
+
+
+def _wform(w, kind):
+    return {'int': int, 'float': float, 'np.int16': np.int16, 'np.int32': np.int32, 'np.int64': np.int64,
+            'np.float64': np.float64}[kind or 'int'](w)
+
+
 SEQ_TEXT = ('call sequence "stateful": c = NP2Converter(bin, post_check, compress=False); spikeglx._map_channels_from_meta / '
             '_conversion_sample2v_from_meta / geometry_from_meta(c.sr.meta); c.init_params(nwindow=nwindow0); '
             'c._ind2save(chunk, sync, wg) twice on the same first-window arrays; c.process(); a second Reader, geometry and '
@@ -257,6 +274,9 @@ def run_real(case, data, smap, reconstruct=True):
     logging.getLogger().setLevel(logging.CRITICAL)
     tmp = tempfile.mkdtemp(prefix='c03_')
     stateful = case.get('seq') == 'stateful'
+    form = case.get('form') or {}
+    pos = form.get('spelling') == 'pos'
+    aspath = (lambda q: str(q)) if form.get('path') == 'str' else (lambda q: q)
     res = {'purity': []}
 
     def untouched(what, before, after, step):
@@ -274,28 +294,43 @@ def run_real(case, data, smap, reconstruct=True):
             rec.write_metadata()
             return st
         return rec.process()
+
+    def init_params(conv, w):
+        w = _wform(w, form.get('nwindow'))
+        return conv.init_params(None, w) if pos else conv.init_params(nwindow=w)
     try:
         bin_file = write_recording(tmp, case, data, smap)
         meta_file = bin_file.with_suffix('.meta')
         res['orig_meta'] = spikeglx.read_meta_data(meta_file)
-        disk0 = _disk_state([bin_file, meta_file])
+        if form.get('container') == 'cbin':      # the original as mtscomp .cbin + .ch
+            import contextlib
+            import io
+            sr0 = spikeglx.Reader(bin_file, sort=False)
+            with contextlib.redirect_stderr(io.StringIO()):      # mtscomp progress bars; 300-sample chunks
+                cbin = sr0.compress_file(keep_original=False, chunk_duration=0.01)
+            sr0.close()
+            bin_file = Path(cbin)
+        inputs = [bin_file, meta_file] + ([bin_file.with_suffix('.ch')] if bin_file.suffix == '.cbin' else [])
+        disk0 = _disk_state(inputs)
         conv = None
         try:
-            conv = neuropixel.NP2Converter(bin_file, post_check=bool(case.get('post_check', False)), compress=False)
+            pc = bool(case.get('post_check', False))
+            conv = (neuropixel.NP2Converter(aspath(bin_file), pc, False, False) if pos else
+                    neuropixel.NP2Converter(aspath(bin_file), post_check=pc, compress=False))
             s2v = conv.sr.channel_conversion_sample2v
             res['gain_bits'] = int(np.asarray(s2v['ap'][:1], dtype=np.float32).view(np.uint32)[0])
             res['sync_gain_bits'] = int(np.asarray(s2v['ap'][-1:], dtype=np.float32).view(np.uint32)[0])
             meta0, s2v0 = _frozen(dict(conv.sr.meta)), _frozen(s2v)
 
             def inputs_untouched(step):
-                untouched('original .bin/.meta on disk', disk0, _disk_state([bin_file, meta_file]), step)
+                untouched('original .bin/.meta on disk', disk0, _disk_state(inputs), step)
                 untouched('converter.sr.meta', meta0, _frozen(dict(conv.sr.meta)), step)
                 untouched('converter.sr.channel_conversion_sample2v', s2v0, _frozen(s2v), step)
             if stateful:
                 for fn in (spikeglx._map_channels_from_meta, spikeglx._conversion_sample2v_from_meta, spikeglx.geometry_from_meta):
                     fn(conv.sr.meta)
                 inputs_untouched('the metadata helpers called on converter.sr.meta')
-                conv.init_params(nwindow=case['nwindow0'])
+                init_params(conv, case['nwindow0'])
                 wg = WindowGenerator(case['ns'], case['nwindow0'], conv.samples_overlap)
                 first, last = next(iter(wg.firstlast))
                 chunk, sync = conv.sr[first:last, :conv.napch].T, conv.sr[first:last, conv.idxsyncch:].T
@@ -309,8 +344,8 @@ def run_real(case, data, smap, reconstruct=True):
                 inputs_untouched(f'process() with nwindow={case["nwindow0"]}')
                 _interleave(bin_file)
                 inputs_untouched('unrelated library calls')
-            conv.init_params(nwindow=case['nwindow'])
-            res['status'] = conv.process(overwrite=True) if stateful else conv.process()
+            init_params(conv, case['nwindow'])
+            res['status'] = (conv.process(True) if pos else conv.process(overwrite=True)) if stateful else conv.process()
             inputs_untouched(f'process({"overwrite=True" if stateful else ""}) with nwindow={case["nwindow"]}')
         except Exception as e:   # noqa
             res['split_error'] = type(e).__name__
@@ -331,7 +366,8 @@ def run_real(case, data, smap, reconstruct=True):
             shank_paths = sorted(p for p in Path(tmp).glob('probe00?*/*.ap.*') )
             shank0 = _disk_state(shank_paths)
             try:
-                rec = neuropixel.NP2Reconstructor(tmp, pname='probe00', compress=False)
+                rec = (neuropixel.NP2Reconstructor(aspath(Path(tmp)), 'probe00', False) if pos else
+                       neuropixel.NP2Reconstructor(aspath(Path(tmp)), pname='probe00', compress=False))
                 f = Path(tmp) / 'probe00' / (NAME + '.bin')
                 for rep in ((1, 2) if stateful else (1,)):
                     st = reconstruct_once(rec)
@@ -395,6 +431,12 @@ def _rand_lengths(rng, max_ns, max_win):
     return ns, w, kind
 
 
+def _rand_form(rng, w):
+    return {'path': str(rng.choice(['str', 'Path'])), 'spelling': str(rng.choice(['kw', 'pos'])),
+            'nwindow': str(rng.choice(['int', 'float', 'np.int64', 'np.int32', 'np.float64'] + (['np.int16'] if w < 32768 else []))),
+            'container': str(rng.choice(['bin', 'bin', 'cbin']))}
+
+
 def _cases(ctx):
     rng = ctx.rng
     cases = []
@@ -404,7 +446,9 @@ def _cases(ctx):
         cases.append({'ns': 172 + i, 'nwindow': 588, 'gain': list(g), 'prb_type': 24 if i % 2 == 0 else 2013,
                       'map_key': 'snsShankMap' if i % 3 else 'snsGeomMap',
                       'shanks': {'kind': ['blocks', 'one', 'stripes', 'random'][i % 4], 'ids': ids, 'seed': i, 'period': 48},
-                      'data': {'kind': 'ramp', 'offset': int(rng.integers(0, 65536)), 'step': 1}, 'lenkind': 'ramp'})
+                      'data': {'kind': 'ramp', 'offset': int(rng.integers(0, 65536)), 'step': 1}, 'lenkind': 'ramp',
+                      'form': {'path': ['str', 'Path'][i % 2], 'spelling': ['kw', 'pos'][(i // 2) % 2], 'container': ['bin', 'cbin', 'bin'][i % 3],
+                               'nwindow': ['int', 'float', 'np.int16', 'np.int32', 'np.int64', 'np.float64'][i % 6]}})
     if not ctx.quick:   # further full-scale / max-int pairs, every int16 value each
         for i, g in enumerate([(0.7, 8192), (1.0, 32768), (0.55, 1024), (0.62, 4096), (0.3, 512), (1.2, 2048), (0.61, 8191)]):
             cases.append({'ns': 171 + 12 * i, 'nwindow': 588, 'gain': list(g), 'prb_type': 24, 'map_key': 'snsShankMap',
@@ -421,6 +465,10 @@ def _cases(ctx):
                       'data': {'kind': str(rng.choice(['random', 'random', 'extremes'])), 'seed': int(rng.integers(0, 2 ** 31))},
                       'lenkind': kind, 'post_check': bool(rng.random() < 0.25),
                       'recon_window': int(rng.choice([0, 0, 1, 500, 1000, ns - 1, ns, ns + 1]))})
+        if rng.random() < 0.65:      # the FORM of the call, drawn independently of the values
+            cases[-1]['form'] = _rand_form(rng, w)
+        if j % 4 == 1:
+            cases[-1]['data'] = {'kind': 'minmax', 'seed': int(rng.integers(0, 2 ** 31))}
         if stateful:
             cases[-1].update(seq='stateful', nwindow0=int(rng.choice([w0 for w0 in (588, 600, 1200, 2400) if w0 != w])))
     # error branch: shorter than the LF taper
@@ -514,7 +562,7 @@ def compare_case(ctx, case, real, model, model_first=None, data=None):
     tags = ('reconW=default' if not case.get('recon_window') else 'reconW<ns' if case['recon_window'] < case['ns'] else 'reconW>=ns',
             f'gain={case["gain"][0]}/{case["gain"][1]}', f'shanks={nsh}', f'map={case["shanks"]["kind"]}', case['map_key'],
             f'len={case["lenkind"]}', 'nwin=1' if nwin == 1 else 'nwin=2' if nwin == 2 else 'nwin=3..9' if nwin < 10 else 'nwin>=10',
-            f'data={case["data"]["kind"]}')
+            f'data={case["data"]["kind"]}') + (tuple(f'form:{k}={v}' for k, v in sorted(case['form'].items())) if case.get('form') else ('form:default',))
     # outcome of the conversion
     i_out = ERRMAP.get(real.get('split_error'), 'err ' + str(real.get('split_error'))) if 'split_error' in real else f'ok status={real.get("status")}'
     m_out = model['split_error'] if 'split_error' in model else 'ok status=1'
@@ -830,6 +878,10 @@ def _shrink(case, budget=26):
         return False
     m = re.search(r'original sample is (-?\d+)|original (-?\d+)$', why or '')
     val = int(next(g for g in m.groups() if g is not None)) if m else None
+    attempt({k: v for k, v in best.items() if k != 'form'})                        # does it fail in the default form?
+    for fk in ('container', 'nwindow', 'spelling', 'path'):
+        if best.get('form') and fk in best['form']:
+            attempt(dict(best, form={k: v for k, v in best['form'].items() if k != fk}))
     attempt({k: v for k, v in best.items() if k not in ('seq', 'nwindow0')})      # does it fail without the call sequence?
     attempt({k: v for k, v in best.items() if k not in ('recon_window', 'post_check')})
     attempt({k: v for k, v in best.items() if k != 'post_check'})
@@ -854,7 +906,7 @@ def _shrink(case, budget=26):
 
 
 def _clean(case):
-    return {k: case[k] for k in ('ns', 'nwindow', 'gain', 'prb_type', 'map_key', 'shanks', 'data', 'recon_window', 'post_check', 'save_subset', 'seq', 'nwindow0') if case.get(k) not in (None, 0, False)}
+    return {k: case[k] for k in ('ns', 'nwindow', 'gain', 'prb_type', 'map_key', 'shanks', 'data', 'recon_window', 'post_check', 'save_subset', 'seq', 'nwindow0', 'form') if case.get(k) not in (None, 0, False)}
 
 
 def search(ctx, reasons):
@@ -918,7 +970,7 @@ def search(ctx, reasons):
                         'NP2Reconstructor output = the original .bin byte for byte and its metadata = the original fields + original_meta',
             'how': 'harness/props/c03.py oracle(input): builds the 385-channel recording described by input (make_smap, make_data, '
                    'NP24_meta fixture), runs NP2Converter(post_check=False, compress=False).init_params(nwindow).process() and NP2Reconstructor'
-                   + ('; ' + SEQ_TEXT if best.get('seq') == 'stateful' else '')}
+                   + ('; ' + SEQ_TEXT if best.get('seq') == 'stateful' else '') + ('; ' + FORM_TEXT if best.get('form') else '')}
 
 
 def replay(ctx, rep):
